@@ -225,7 +225,7 @@ func runC06(c *mon.Ctx) {
 	})
 
 	// long random streams over all byte values, random chunkings
-	c.Each("random", c.N(20_000, 500_000), func(i int64, r *mon.Rand) {
+	c.Each("random", c.N(20_000, 2_000_000), func(i int64, r *mon.Rand) {
 		n := r.Range(50, 2000)
 		if i%4 != 0 {
 			n = r.Range(5, 200)
@@ -278,7 +278,7 @@ func runC06(c *mon.Ctx) {
 
 	// garbage prefix + well-formed suffix: the suffix must be decoded exactly (ground truth
 	// from the generator, independent of the reference receiver)
-	c.Each("garbage-suffix", c.N(20_000, 400_000), func(i int64, r *mon.Rand) {
+	c.Each("garbage-suffix", c.N(20_000, 2_000_000), func(i int64, r *mon.Rand) {
 		np := r.Range(0, 30)
 		prefix := make([]byte, np)
 		for j := range prefix {
